@@ -132,13 +132,16 @@ def maskVal (seq : List Nat) (i j : Nat) : R :=
 def diamExp (seq : List Nat) (sqrtd : R) (Q K : Mat R) (i j : Nat) : R :=
   o.exp (o.div (o.add (o.dot (Q.getD i []) (K.getD j [])) (o.maskVal seq i j)) sqrtd)
 
-/-- one head of `DiaM.forward`: masked scores, `softmax(dim=-1)`, weighted sum of the values -/
+/-- row `i` of one head of `DiaM.forward`: masked scores, `softmax(dim=-1)`, weighted sum of the values -/
+def diamRow (seq : List Nat) (sqrtd : R) (d : Nat) (Q K V : Mat R) (i : Nat) : Vec R :=
+  let e := (List.range K.length).map fun j => o.diamExp seq sqrtd Q K i j
+  let s := o.sum e
+  let p := e.map fun x => o.div x s
+  (List.range d).map fun l => o.dot p (o.colOf l V)
+
+/-- one head of `DiaM.forward` -/
 def diamHead (seq : List Nat) (sqrtd : R) (d : Nat) (Q K V : Mat R) : Mat R :=
-  (List.range Q.length).map fun i =>
-    let e := (List.range K.length).map fun j => o.diamExp seq sqrtd Q K i j
-    let s := o.sum e
-    let p := e.map fun x => o.div x s
-    (List.range d).map fun l => o.dot p (o.colOf l V)
+  (List.range Q.length).map (o.diamRow seq sqrtd d Q K V)
 
 def diamBatch (c n : Nat) (a : DiaM R) (X : T3 R) : T3 R :=
   let d := c / a.heads
